@@ -461,3 +461,33 @@ def run(chk):
         if n < 2:
             chk.inconc("R10", f"only {n} shapes of Field::from_syn evaluated")
     chk.guard("R10", r10)
+
+    def r11():
+        # shape flags of the deriving type / of a variant: named_fields <=> Fields::Named, unit <=> Fields::Unit (they select the
+        # `{..}` / `(..)` / bare form of every emitted pattern and literal)
+        from ..tables import AST
+        from ..src import walk as _walk
+        chk.rule("R11", "ast.rs shape flags: named_fields is true exactly for Fields::Named, unit exactly for Fields::Unit", floor=2)
+        n = 0
+        for fi in chk.repo.fns(AST):
+            for node in _walk(fi.body):
+                if node["k"] != "Struct" or (node.get("path") or "").split("::")[-1].strip() not in ("Struct", "Variant"):
+                    continue
+                for f_ in node["fields"]:
+                    if f_["member"] not in ("named_fields", "unit"):
+                        continue
+                    t = render(f_["expr"]).replace(" ", "")
+                    # follow one local definition
+                    if re.fullmatch(r"\w+", t):
+                        from ..src import local_defs
+                        t = local_defs(fi).get(t, t)
+                    want = "Named" if f_["member"] == "named_fields" else "Unit"
+                    others = {"Named", "Unnamed", "Unit"} - {want}
+                    pos = re.search(r"Fields::" + want + r"\b", t) is not None and not t.startswith("!")
+                    neg = any(re.search(r"Fields::" + o + r"\b", t) for o in others) and not re.search(r"Fields::" + want + r"\b", t)
+                    n += 1
+                    chk.shape("R11", f"{fi.qual}:{f_['member']}", pos, (neg and not t.startswith("!")) or (t.startswith("!") and re.search(r"Fields::" + want + r"\b", t) is not None) or t in ("true", "false"), AST, node["line"],
+                              what="shape flag computed from the wrong kind of field list", expected=f"matches!(.., Fields::{want}..)", found=t[:100])
+        if n < 2:
+            chk.inconc("R11", f"only {n} shape flags found in ast.rs struct literals (4 confirmed by hand)")
+    chk.guard("R11", r11)
